@@ -10,6 +10,7 @@ Line-protocol driver for the Kalman model (properties C03 and C08).
   lyap T P stdU Q      -> ok R        (Q - T Q Tᵀ - P Σ Pᵀ)
 -/
 import IrisVerif.Model.Kalman
+import IrisVerif.Model.KalmanObject
 import IrisVerif.Driver.Util
 
 open IrisVerif IrisVerif.Driver IrisVerif.Kalman
@@ -137,6 +138,37 @@ def runKfv (rescale : Bool) (vs : List VariantIn) : R String := do
       ((o.predictVar.zip (o.updateVar.zip o.smoothVar)).map (fun x => " ".intercalate [sm x.1, sm x.2.1, sm x.2.2]))))
   pure (" ".intercalate (["ok", toString outs.length] ++ per))
 
+/-! `obj X Xa J Ru <nE> e… <nW> w… <nops> {op}*` — the model object state machine (`Model/KalmanObject.lean`);
+ops `aE n v…`, `aW n v…`, `rs f`, `cp`, `fl`, `xs fwd`, `xt fwd`; reply per op `-` | `S nE e… nW w…` | `M n mat…` -/
+
+def ratP : P Rat := do let w ← word; match QMat.parseRat? w with | some q => pure q | none => failure
+def ratList : P (List Rat) := do let n ← nat; rep ratP n
+
+def objOp : P KalmanObject.Op := do
+  let w ← word
+  match w with
+  | "aE" => do let v ← ratList; pure (.assignE v)
+  | "aW" => do let v ← ratList; pure (.assignW v)
+  | "rs" => do let f ← ratP; pure (.rescale f)
+  | "cp" => pure .copy
+  | "fl" => pure .filter
+  | "xs" => do let n ← nat; pure (.expandSq n)
+  | "xt" => do let n ← nat; pure (.expandTri n)
+  | _ => failure
+
+def showOut : KalmanObject.Out → String
+  | .none => "-"
+  | .stds p => " ".intercalate (["S", toString p.stdE.length] ++ p.stdE.map QMat.showRat ++ [toString p.stdW.length] ++ p.stdW.map QMat.showRat)
+  | .mats l => " ".intercalate (["M", toString l.length] ++ l.map sm)
+
+def runObj : P String := do
+  let X ← mat; let Xa ← mat; let J ← mat; let Ru ← mat
+  let e ← ratList; let wv ← ratList
+  let n ← nat
+  let ops ← rep objOp n
+  let o : KalmanObject.Obj := { params := ⟨e, wv⟩, X, Xa, J, Ru, cacheSq := [], cacheTri := [] }
+  pure (" ".intercalate ("ok" :: (KalmanObject.run o ops).map showOut))
+
 def step (line : String) : String :=
   match words line with
   | "kf" :: rest =>
@@ -146,6 +178,10 @@ def step (line : String) : String :=
   | "kfr" :: rest =>
     match req rest with
     | some (q, []) => (match runKf true q with | .ok s => s | .error e => showErr e)
+    | _ => "bad-op"
+  | "obj" :: rest =>
+    match runObj rest with
+    | some (s, []) => s
     | _ => "bad-op"
   | "kfv" :: rest =>
     match (do let r ← nat; let nv ← nat; let vs ← rep variantReq nv; pure (r, vs) : P _) rest with
